@@ -7,4 +7,9 @@ InB == << << <<1>>, <<0>>, <<1>> >> >>                          \* 1 file, a bat
 InC == << << <<1>> >>, << <<2>> >>, << <<1>> >> >>              \* 3 one-batch files (file turnover)
 InD == << << <<1, 2>>, <<2, 1>> >>, << <<2>>, <<0, 1>> >> >>    \* 2 files x 2 batches
 InE == << << <<0>> >> >>                                        \* nothing matches at all
+\* <<>> = a name that cannot be opened (see AggLoop!Missing)
+InM == << <<>>, << <<1>>, <<2>> >> >>                           \* R = 1: as many unopenable names as reader slots, then a file
+InN == << <<>>, <<>>, << <<1, 2>> >> >>                         \* R = 2: likewise
+InO == << << <<1>> >>, <<>>, << <<2>> >>, <<>> >>               \* unopenable names between and after readable files
+InP == << <<>>, <<>> >>                                         \* nothing can be opened at all
 =============================================================================
